@@ -24,11 +24,14 @@ fn plant_errors(b: &mut Built, ch: &mut Ch) -> usize {
         let mut i = 0;
         while i <= bl.len() {
             if *want > 0 && ch.chance(1, 4) {
+                // (the entry that cannot be evaluated stands in any column; the input columns left of it hold 1, those
+                // right of it 0: whatever has been evaluated when the row fails must not show up anywhere later)
+                let fc = ch.upto(cols.len().max(1));
                 let row = |id: usize| -> Vec<Entry> {
                     let _ = id;
                     cols.iter()
                         .enumerate()
-                        .map(|(k, c)| if k == 0 { Entry::Paren(bad()) } else if c.role == ColRole::ExpectedOnly { Entry::X(true) } else { Entry::Num(0, Radix::Dec) })
+                        .map(|(k, c)| if k == fc { Entry::Paren(bad()) } else if c.role == ColRole::ExpectedOnly { Entry::X(true) } else { Entry::Num((k < fc) as u64, Radix::Dec) })
                         .collect()
                 };
                 let st = match ch.upto(5) {
